@@ -395,7 +395,7 @@ LATER = {
     "C02": " Generic Kombinationen / functions of one module instantiated with types their module cannot see (declared by the importer or by a sibling module imported before / after), six uses, modules linked and kept apart: accepted implies compiled.",
     "C05": " Every call / return row of the aliasing matrix (incl. a function returning its own unchanged value parameter, recursion handing a value parameter to the function's own Referenz parameter) runs under the ledger at -O 2 in every tier: at that level parameters judged constant are only borrowed.",
     "C07": " The range monitor also looks at the diagnostics wrapped inside delivered ones (failed generic instantiations); corpus families: an error behind letters of 2-4 bytes on the same line, two errors in one statement at top level and inside blocks (120 programs), errors at every place of a generic body.",
-    "C08": " Rows for recursion (a value parameter handed to the function's own Referenz parameter) and for returning an unchanged value parameter (argument local / global / temporary).",
+    "C08": " The annotator behind the -O 2 elision (a value parameter flagged constant gets the caller's storage) is modelled (DDP.ConstParam) and its flags are PROVED sound for every module: a flagged parameter is not changed by assignment, through Referenz parameters of any callee (earlier, later, itself, C), or through further hand-overs (theorem sound; old_rule_unsound is the pre-repair defect with its witness); tie: flags of the real annotator on generated modules vs the model. Rows for recursion (a value parameter handed to the function's own Referenz parameter) and for returning an unchanged value parameter (argument local / global / temporary).",
     "C10": " Module paths that differ only in `/` against `_` (pkg/ap/ad.ddp, pkg/ap_ad.ddp) and a module file next to a directory of the same stem occur in the generated graphs.",
     "C12": " For-each loops over a Text whose body assigns the loop variable a letter of another encoded width (32 programs, judged by the L2 evaluator).",
     "C14": " Behind instantiations of a generic Kombination: declarations (by literal and by default value) are judged separately from the statement under test.",
